@@ -245,6 +245,35 @@ func Check13(c Case13, r *core.Rec) {
 			return
 		}
 	}
+	// (iv) a Clone taken now — of a value with a history, whose parameter list need not be what its
+	// query parses to — is a copy: equal in every getter and in the search parameters (recorded
+	// validation errors excepted: a clone starts without them), and independent in both directions
+	for s := 0; s < 2; s++ {
+		k := sides[s].Clone()
+		ks, os := takeSnap(k, true, names), takeSnap(sides[s], true, names)
+		ks.verrs, os.verrs = "", ""
+		where := fmt.Sprintf("at the end of %s %s ref=%s touch=%v with %d operations", c.Scenario, quote(string(c.URL)), quote(string(c.Ref)), c.Touch, len(c.Ops))
+		if d := diffSnap(ks, os); d != "" {
+			r.Failf("%s: a Clone of side %d differs from it (clone vs original): %s", where, s, d)
+			return
+		}
+		late := append(append([]string{}, names...), "late")
+		before := takeSnap(sides[s], true, late)
+		k.SearchParams().Append("late", "1")
+		k.SetHash("late")
+		if d := diffSnap(takeSnap(sides[s], true, late), before); d != "" {
+			r.Failf("%s: operations on a Clone of side %d changed side %d: %s", where, s, s, d)
+			return
+		}
+		kBefore := takeSnap(k, true, late)
+		sides[s].SearchParams().Append("late", "2")
+		sides[s].SetHash("other")
+		if d := diffSnap(takeSnap(k, true, late), kBefore); d != "" {
+			r.Failf("%s: operations on side %d changed the Clone taken from it: %s", where, s, d)
+			return
+		}
+		r.Class("late-clone")
+	}
 	if opsOn[0] >= 1 && opsOn[1] >= 1 && spMutation {
 		r.NT()
 	}
@@ -302,8 +331,8 @@ func Gen13(t *rapid.T) Case13 {
 
 var P13 = core.Register(core.Prop[Case13]{
 	ID: "C13",
-	Rule: "two scenarios: resolve (A = parsed base, B = A.Parse(ref)) and clone (B = A.Clone()), each with A.SearchParams() touched before or never (lazily created state present or absent), then 1..10 operations (nine setters, SetSearch, SearchParams operations) each applied to a randomly chosen side; " +
-		"oracle: (i) resolving / cloning leaves A identical to a pristine parse, (ii) after each operation the other side's snapshot (Href + 9 getters + fragment + parameter list through Has/GetAll/String) is unchanged, (iii) the operated-on side equals an isolated twin (fresh parse, same history, never cloned or used as base), also at the end with both parameter lists; " +
+	Rule: "two scenarios: resolve (A = parsed base, B = A.Parse(ref)) and clone (B = A.Clone()), each with A.SearchParams() touched before or never (lazily created state present or absent), then 1..10 operations (nine setters, SetSearch, SearchParams operations) each applied to a randomly chosen side, and at the end a Clone of each side as it then is; " +
+		"oracle: (i) resolving / cloning leaves A identical to a pristine parse, (ii) after each operation the other side's snapshot (Href + 9 getters + fragment + parameter list through Has/GetAll/String) is unchanged, (iii) the operated-on side equals an isolated twin (fresh parse, same history, never cloned or used as base), also at the end with both parameter lists, (iv) the final Clone of each side equals it in every getter and in the parameter list (which after Append(\"a&b\", …) is not what its query parses to) and neither changes when the other is operated on; " +
 		"non-trivial = at least one operation on each side and at least one SearchParams mutation; distinct by hash of the case",
 	Gen:   Gen13,
 	Check: Check13,
